@@ -462,7 +462,7 @@ def expected_clause(v, strict, barriers_on):
 # user-CPU seconds a pass may burn on one circuit before it counts as "does not
 # return" (Circuit.surround is exponential in the block size: the generator keeps
 # Greedy/Clustering inputs small)
-PASS_CPU_BASE = 60.0
+PASS_CPU_BASE = 120.0
 PASS_CPU_PER_OP = 1.0
 
 
